@@ -514,7 +514,14 @@ fn synth_image(sc: &Scenario, t: &mut Tape) -> Vec<u8> {
     for d in 0..sc.knob("synth_dups", 0) as usize {
         let key = key_of(d % n.max(1));
         let value = harness::plain_value(d, 6, 1000 + d as u32, 30 + t.below(5000) as usize);
-        let ts = if t.chance(1, 2) { now - 2_000_000 } else { now + 5 + d as u64 };
+        // older, newer, or carrying exactly the timestamp of the generation it duplicates (what a
+        // delete + re-insert with an explicit timestamp leaves when the crash comes before the
+        // retirement): the later extent wins, as in an ordinary recovery
+        let ts = match t.below(3) {
+            0 => now - 2_000_000,
+            1 => now + 5 + d as u64,
+            _ => now - 1_000_000 + (d % n.max(1)) as u64,
+        };
         if !place(&mut image, &mut sector, &key, &value, ts, 0) {
             break;
         }
